@@ -43,6 +43,7 @@ func runC05(c *Ctx) {
 	r.Rule("C05.R2", "single worker: start is only ever invoked as 'go x.start()'; (a) outside start, the spawn is dominated by the test busyCh == nil and paired with 'busyCh = make(...)' in the same critical section; (b) in start's deferred exit block the restart comes after close(busyCh), under the lock, dominated by BOTH ops.Len() != 0 and !isClosed, paired with a fresh busyCh; busyCh = nil and close(busyCh) occur only in that exit block, on every path exactly one of {clear, restart}", 6)
 	r.Rule("C05.R3", "exactly once, in order: pop takes the head (Front) and removes it under the lock before returning a value derived from it; the list is only mutated by PushBack and Remove; what is pushed has the type pop asserts; in start every popped non-nil operation is called exactly once before the next pop, outside the lock", 10)
 	r.Rule("C05.R4", "closed queue: PushBack is dominated by !isClosed (and op != nil) in the same critical section as the worker test; isClosed is only ever set to true, under the lock; GracefulClose sets it and samples busyCh in one critical section and waits on the sampled channel outside the lock", 4)
+	r.Rule("C05.R6", "PeerConnection.close(graceful): every return of a graceful caller is preceded by pc.ops.GracefulClose() (directly or through a closure/helper every graceful path of which calls it), except on a branch establishing !graceful or that another graceful closer is already at work", 1)
 	r.Rule("C05.R5", "Done: the waiter is enqueued through tryEnqueue under the lock, calls wg.Done exactly once, wg.Add(1) precedes it; wg.Wait runs outside the lock and exactly when the enqueue was accepted", 3)
 	r.NotCovered = append(r.NotCovered,
 		"the interleavings themselves (the hand-off argument from R1-R4 is not explored by a scheduler)",
@@ -72,6 +73,7 @@ func runC05(c *Ctx) {
 	x.r3()
 	x.r4()
 	x.r5()
+	c05R6(c, "C05.R6") // c05b.go
 
 	if c.Thorough {
 		c05Config386(c, func(c2 *Ctx) { runC05(c2) })
